@@ -48,6 +48,13 @@ pub fn alloc_max() -> usize {
 	#[cfg(not(kani))]
 	native_alloc::MAX.load(std::sync::atomic::Ordering::Relaxed)
 }
+pub fn alloc_limit(limit: usize) {
+	#[cfg(kani)]
+	unsafe {
+		stubs::ALLOC_LIMIT = limit;
+	}
+	let _ = limit;
+}
 pub fn alloc_reset() {
 	#[cfg(kani)]
 	unsafe {
@@ -185,25 +192,40 @@ pub mod stubs {
 		mixh!(0,0,0; 0,1,1; 0,2,2; 0,3,3; 1,0,4; 1,1,5; 1,2,6; 1,3,7);
 	}
 
-	// ---- E12: allocation ghost. Records the largest single request.
+	// ---- E12: allocation ghost. Every request is checked against ALLOC_LIMIT (set by the
+	// harness); the request is then served by a block of the *concrete* size ALLOC_BLOCK so that
+	// no heap object has a symbolic size (symbolic-size objects are what made 8-byte decoder
+	// queries exceed 10 GB). Requests above ALLOC_BLOCK are cut off after the assertion.
 	pub static mut ALLOC_MAX: usize = 0;
-	pub unsafe fn alloc_rec(layout: core::alloc::Layout) -> *mut u8 {
-		if layout.size() > ALLOC_MAX {
-			ALLOC_MAX = layout.size();
+	pub static mut ALLOC_LIMIT: usize = usize::MAX;
+	pub const ALLOC_BLOCK: usize = 4096;
+	unsafe fn note(size: usize) {
+		if size > ALLOC_MAX {
+			ALLOC_MAX = size;
 		}
-		std::alloc::GlobalAlloc::alloc(&std::alloc::System, layout)
+		kani::assert(size <= ALLOC_LIMIT, "allocation request within the bound for this input length");
+		kani::assume(size <= ALLOC_BLOCK);
+	}
+	pub unsafe fn alloc_rec(layout: core::alloc::Layout) -> *mut u8 {
+		note(layout.size());
+		std::alloc::GlobalAlloc::alloc(&std::alloc::System, core::alloc::Layout::from_size_align_unchecked(ALLOC_BLOCK, layout.align()))
 	}
 	pub unsafe fn alloc_zeroed_rec(layout: core::alloc::Layout) -> *mut u8 {
-		if layout.size() > ALLOC_MAX {
-			ALLOC_MAX = layout.size();
-		}
-		std::alloc::GlobalAlloc::alloc_zeroed(&std::alloc::System, layout)
+		note(layout.size());
+		std::alloc::GlobalAlloc::alloc_zeroed(&std::alloc::System, core::alloc::Layout::from_size_align_unchecked(ALLOC_BLOCK, layout.align()))
 	}
 	pub unsafe fn realloc_rec(ptr: *mut u8, layout: core::alloc::Layout, new_size: usize) -> *mut u8 {
-		if new_size > ALLOC_MAX {
-			ALLOC_MAX = new_size;
-		}
-		std::alloc::GlobalAlloc::realloc(&std::alloc::System, ptr, layout, new_size)
+		note(new_size);
+		// blocks are ALLOC_BLOCK bytes: growing inside the block keeps the pointer
+		let _ = layout;
+		ptr
+	}
+	/// blocks are never returned (their real size differs from the layout the caller passes)
+	pub unsafe fn dealloc_rec(_ptr: *mut u8, _layout: core::alloc::Layout) {}
+	pub unsafe fn dealloc_nn_rec(_ptr: core::ptr::NonNull<u8>, _layout: core::alloc::Layout) {}
+	pub unsafe fn realloc_nn_rec(ptr: core::ptr::NonNull<u8>, _layout: core::alloc::Layout, new_size: usize) -> *mut u8 {
+		note(new_size);
+		ptr.as_ptr()
 	}
 }
 
@@ -231,6 +253,9 @@ macro_rules! proof {
 			#[cfg_attr(kani, kani::stub(alloc::alloc::alloc, crate::env::stubs::alloc_rec))]
 			#[cfg_attr(kani, kani::stub(alloc::alloc::alloc_zeroed, crate::env::stubs::alloc_zeroed_rec))]
 			#[cfg_attr(kani, kani::stub(alloc::alloc::realloc, crate::env::stubs::realloc_rec))]
+			#[cfg_attr(kani, kani::stub(alloc::alloc::dealloc, crate::env::stubs::dealloc_rec))]
+			#[cfg_attr(kani, kani::stub(alloc::alloc::dealloc_nonnull, crate::env::stubs::dealloc_nn_rec))]
+			#[cfg_attr(kani, kani::stub(alloc::alloc::realloc_nonnull, crate::env::stubs::realloc_nn_rec))]
 		] $($rest)* }
 	};
 	( @acc [rand, $($g:ident,)*] [$($a:tt)*] $($rest:tt)* ) => {
